@@ -106,9 +106,25 @@ pub fn run(args: &Args) {
     let histories = v["histories"].as_array().cloned().unwrap_or_default();
     for (hi, hist) in histories.iter().enumerate() {
         let mut table = new_table();
+        let mut last_root: Option<(String, Vec<String>)> = None;
         for (si, step) in hist.as_array().cloned().unwrap_or_default().iter().enumerate() {
-            let fen = step["fen"].as_str().unwrap_or("startpos").to_string();
-            let pre: Vec<String> = step["pre"].as_array().map(|a| a.iter().map(|x| x.as_str().unwrap_or("").to_string()).collect()).unwrap_or_default();
+            let mut fen = step["fen"].as_str().unwrap_or("startpos").to_string();
+            let mut pre: Vec<String> = step["pre"].as_array().map(|a| a.iter().map(|x| x.as_str().unwrap_or("").to_string()).collect()).unwrap_or_default();
+            // "child": j  - search the position reached from the PREVIOUS step's root by its j-th legal move
+            // (an interior node of the previous search), on the same table
+            if let Some(j) = step["child"].as_u64() {
+                if let Some((pf, pp)) = last_root.clone() {
+                    if let Ok(mut g) = build_game(&pf, &pp) {
+                        let lg = obs::gen(&mut g, true);
+                        if !lg.is_empty() {
+                            fen = pf;
+                            pre = pp;
+                            pre.push(lg[(j as usize) % lg.len()].uci_notation());
+                        }
+                    }
+                }
+            }
+            last_root = Some((fen.clone(), pre.clone()));
             let limit = step["limit"].as_u64().map(|d| d as u8);
             let stop = step["stop"].as_u64();
             let watch_ms = step["watch_ms"].as_u64().unwrap_or(5000);
@@ -192,6 +208,68 @@ pub fn run(args: &Args) {
                 }
             }
             emit(&mut out, e);
+        }
+    }
+    out.flush().unwrap();
+}
+
+/// `cycles`: find perpetual-check shuttles - the attacker checks alternately from two squares and the
+/// defender has exactly one legal reply each time - and print the move prefix after which the repetition
+/// filter of the search is armed while the side to move has a single legal move (scenario generation for
+/// C06; legality is judged by TLC afterwards, not here).
+pub fn run_cycles(args: &Args) {
+    let fens = crate::play::read_lines(args.req("fens"));
+    let mut out = open_out(args.req("out"));
+    let limit = args.num("max", 200) as usize;
+    let mut found = 0usize;
+    'outer: for fen in fens {
+        let Ok(Ok(root)) = guard(|| Game::new(&fen)) else { continue };
+        // forced(g, m): play m; the opponent must have exactly one legal reply; returns (reply, game after reply)
+        let forced = |g: &Game, m: Move| -> Option<(Move, Game)> {
+            let mut h = g.clone();
+            h.push_history(m);
+            let p = h.player();
+            if !h.is_targeted(h.get_king_position(p), p) {
+                return None;
+            }
+            let lg = obs::gen(&mut h, true);
+            if lg.len() != 1 {
+                return None;
+            }
+            let r = lg[0];
+            h.push_history(r);
+            Some((r, h))
+        };
+        let mut g0 = root.clone();
+        for a1 in obs::gen(&mut g0, true) {
+            let Some((d1, s1)) = forced(&root, a1) else { continue };
+            let mut g1 = s1.clone();
+            for a2 in obs::gen(&mut g1, true) {
+                let Some((d2, s2)) = forced(&s1, a2) else { continue };
+                let mut g2 = s2.clone();
+                for a3 in obs::gen(&mut g2, true) {
+                    let Some((d3, s3)) = forced(&s2, a3) else { continue };
+                    // the shuttle: a4 must be the same move as a2, a5 the same as a3
+                    let mut g3 = s3.clone();
+                    let Some(a4) = obs::gen(&mut g3, true).into_iter().find(|m| *m == a2) else { continue };
+                    let Some((d4, s4)) = forced(&s3, a4) else { continue };
+                    let mut g4 = s4.clone();
+                    let Some(a5) = obs::gen(&mut g4, true).into_iter().find(|m| *m == a3) else { continue };
+                    let mut s5 = s4.clone();
+                    s5.push_history(a5);
+                    let lg = obs::gen(&mut s5, true);
+                    if lg.len() != 1 {
+                        continue;
+                    }
+                    let pre: Vec<String> = [a1, d1, a2, d2, a3, d3, a4, d4, a5].iter().map(|m| m.uci_notation()).collect();
+                    emit(&mut out, json!({"fen": fen, "pre": pre, "only": lg[0].uci_notation()}));
+                    found += 1;
+                    if found >= limit {
+                        break 'outer;
+                    }
+                    continue 'outer;
+                }
+            }
         }
     }
     out.flush().unwrap();
